@@ -4,6 +4,7 @@ finite space.  Used only where neither Verus nor Kani/CBMC can take the function
 import hashlib
 import json
 import os
+import re
 import shutil
 import subprocess
 import sys
@@ -309,6 +310,7 @@ def run_group(g, prop, tier='quick', only=None):
         import run as vxrun
         extra_tail = ''
         auto = []
+        std_imported = set()
         for _round in range(4):
             old_mode = rustlex.VERUS_MODE
             try:
@@ -337,6 +339,19 @@ def run_group(g, prop, tier='quick', only=None):
                     except Exception:
                         pass
             missing = [m for m in vxrun.find_missing_callees(diags, regions) if m not in auto]
+            # a change may use a std name the unit does not import yet: take the import from the source file's own `use std::..`
+            std_added = False
+            for dd in diags:
+                mm = re.search(r'cannot find (?:type|trait|value|struct, variant or union type|function|macro|derive macro) `(\w+)` in this scope|use of undeclared type `(\w+)`|failed to resolve: use of undeclared type `(\w+)`', dd.get('message', ''))
+                name = next((g for g in (mm.groups() if mm else ()) if g), None)
+                if name and name not in std_imported:
+                    path = std_import_for(name, regions)
+                    if path:
+                        std_imported.add(name)
+                        extra_tail += f'\nuse {path};   // imported by the source file; a change started using it\n'
+                        std_added = True
+            if std_added and _round < 3:
+                continue
             if not missing or _round == 3:
                 errs = [dd.get('message', '') for dd in diags if dd.get('level') == 'error']
                 res['reason'] = 'rustc rejected the extracted text (changed code uses something the shims lack): ' + ' | '.join(errs)[:600]
@@ -400,6 +415,53 @@ def run_group(g, prop, tier='quick', only=None):
     finally:
         res['wall_s'] = round(time.time() - t0, 2)
         shutil.rmtree(work, ignore_errors=True)
+
+
+def _expand_use(prefix, body, out):
+    """expands `a::{b::C, d::{E, F as G}}` into full paths; out maps the imported name to its path"""
+    body = body.strip()
+    if not body:
+        return
+    if body.startswith('{') and body.endswith('}'):
+        depth, cur, parts = 0, '', []
+        for ch in body[1:-1]:
+            if ch == '{':
+                depth += 1
+            elif ch == '}':
+                depth -= 1
+            if ch == ',' and depth == 0:
+                parts.append(cur)
+                cur = ''
+            else:
+                cur += ch
+        parts.append(cur)
+        for part in parts:
+            _expand_use(prefix, part, out)
+        return
+    m = re.match(r'^([\w:]+?)::(\{.*\})$', body, re.S)
+    if m:
+        _expand_use(prefix + m.group(1) + '::', m.group(2), out)
+        return
+    path = prefix + body
+    m = re.match(r'^(.*?)\s+as\s+(\w+)$', path)
+    name = m.group(2) if m else path.split('::')[-1]
+    if name not in ('self', '*'):
+        out[name] = path
+
+
+def std_import_for(name, regions):
+    files = {r.info['src_file'] for r in regions if r.kind == 'fn' and r.info.get('src_file')}
+    for rel in sorted(files):
+        try:
+            txt = open(os.path.join(extract.REPO, rel), encoding='utf-8').read()
+        except OSError:
+            continue
+        out = {}
+        for m in re.finditer(r'^use\s+((?:std|core|alloc)::[^;]+);', txt, re.M | re.S):
+            _expand_use('', re.sub(r'\s+', ' ', m.group(1)).replace(' ', '') if ' as ' not in m.group(1) else re.sub(r'\s+', ' ', m.group(1)), out)
+        if name in out:
+            return out[name]
+    return None
 
 
 def run_cargo_group(g, d, res, work, tier, only, t0):
